@@ -621,8 +621,8 @@ class Key:
             )
         elif sexp[1][0] == b"rsa-pkcs1":
             assert len(kd) == 8, len(kd)
-            if kd[b"p"] > kd[b"q"]:  # Make p smaller than q
-                kd[b"p"], kd[b"q"] = kd[b"q"], kd[b"p"]
+            # _toString_LSH stores our p as lsh's q and vice versa: undo it.
+            kd[b"p"], kd[b"q"] = kd[b"q"], kd[b"p"]
             return cls._fromRSAComponents(
                 n=kd[b"n"], e=kd[b"e"], d=kd[b"d"], p=kd[b"p"], q=kd[b"q"]
             )
